@@ -172,24 +172,6 @@ func oracleTypedDec(mode string, b []byte) (msg string, accepted bool) {
 }
 
 func emitTypedDec(c *hxlib.Ctx, kind, mode string, b []byte) {
-	key := "typed|" + mode + "|" + hex.EncodeToString(b)
-	if crashers[key] {
-		if !scanning {
-			c.Emit(hxlib.Case{Kind: "typed-" + kind + "/crash", Key: key,
-				Input:      map[string]interface{}{"t": "typed", "v": typedIn{Mode: mode, Hex: hex.EncodeToString(b)}},
-				Nontrivial: true, OracleErr: fmt.Sprintf("typed(%s) decoding %s: ", mode, trunc(b)) + crashMsg})
-		}
-		severe++
-		return
-	}
-	announce(key)
-	if len(crashers) > 0 && !scanning && dies("typed", mode, hex.EncodeToString(b)) {
-		c.Emit(hxlib.Case{Kind: "typed-" + kind + "/crash", Key: key,
-			Input:      map[string]interface{}{"t": "typed", "v": typedIn{Mode: mode, Hex: hex.EncodeToString(b)}},
-			Nontrivial: true, OracleErr: fmt.Sprintf("typed(%s) decoding %s: ", mode, trunc(b)) + crashMsg})
-		severe++
-		return
-	}
 	msg, acc := oracleTypedDec(mode, b)
 	noteSevere(msg)
 	if acc {
@@ -219,11 +201,8 @@ func genTyped(c *hxlib.Ctx) {
 		return
 	}
 	modes := []string{"any", "any", "obj", "pobj", "pdict"}
+	var items []malItem
 	for i := 0; i < c.N(900); i++ {
-		if severe >= severeCap {
-			c.Note("typed malformed stream cut after %d inputs", i)
-			break
-		}
 		s := seeds[r.Intn(len(seeds))]
 		mode := modes[r.Intn(len(modes))]
 		var b []byte
@@ -256,7 +235,10 @@ func genTyped(c *hxlib.Ctx) {
 			kind = "random"
 			b = randomBytes(r)
 		}
-		emitTypedDec(c, kind, mode, b)
+		items = append(items, malItem{kind, "typed", mode, b})
+	}
+	if severe < severeCap {
+		runBatch(c, items)
 	}
 }
 
@@ -266,7 +248,7 @@ func replayTyped(v typedIn) string {
 		return msg
 	}
 	b, _ := hex.DecodeString(v.Hex)
-	if !scanning && dies("typed", v.Mode, v.Hex) {
+	if dies("typed", v.Mode, v.Hex) {
 		return fmt.Sprintf("typed(%s) decoding %s: ", v.Mode, trunc(b)) + crashMsg
 	}
 	msg, _ := oracleTypedDec(v.Mode, b)
